@@ -102,7 +102,8 @@ class Run:
                 print("KNOWN-FINDING: property=%s %s [%s] (observed %d times this run)"
                       % (self.prop, k.get("what_fails", ""), k["signature"], self.viol[k["signature"]]["count"]))
             else:
-                print("NOTE: property=%s listed finding not observed this run: %s" % (self.prop, k["signature"]))
+                print("KNOWN-FINDING: property=%s %s [%s] (listed; not re-observed by this run's workload)"
+                      % (self.prop, k.get("what_fails", ""), k["signature"]))
         for c in self.require:
             if not self.cov.get(c):
                 self.inconcl.append("coverage key never hit: " + c)
